@@ -30,6 +30,12 @@ def run(ctx):
                 full["base_offset"] -= k
                 full["last_offset_delta"] += k
         try:
+            if full["base_timestamp"] > 10**9 and i % 2 == 0:
+                # LogAppendTime shape (realistic clocks only): the broker overwrote the header's max timestamp with its own
+                # clock, which may be behind or ahead of the producer's - a well-formed batch either way
+                lat = dict(full, attributes=(full["attributes"] | 8) & 0x7FFF,
+                           max_timestamp=full["base_timestamp"] + r.choice([-5000, -60000, -1000, 250, 86400000]))
+                batches.append((f"reference-{i}-logappendtime", refbatch.enc_batch(lat)))
             batches.append((f"reference-{i}", refbatch.enc_batch(full)))
         except Exception:  # noqa: out-of-range delta for struct
             continue
